@@ -74,8 +74,8 @@ def gen_arma_estimate(rng, n, nimpl):
     from spectrum.arma import arma_estimate
     from spectrum.covar import arcovar
     c = L.Cases('arma_estimate')
-    kinds = ['dom', 'dom', 'dom_oracle', 'lag_ge_N', 'dom', 'N_lt_P', 'index_R', 'dom', 'index_Y', 'marple_assert', 'dom_oracle', 'lag0',
-             'oracle_short', 'dom', 'q0', 'ma_assert', 'underdet', 'any', 'dom34', 'any', 'underdet', 'any']
+    kinds = ['dom', 'dom34', 'dom_oracle', 'lag_ge_N', 'dom', 'N_lt_P', 'index_R', 'dom', 'index_Y', 'marple_assert', 'dom_oracle', 'lag0',
+             'oracle_short', 'dom', 'q0', 'ma_assert', 'underdet', 'any', 'dom34', 'any', 'dom', 'underdet', 'any']
     i = 0
     while len(c.exact) < n:
         kind = kinds[i % len(kinds)]; i += 1
@@ -83,6 +83,7 @@ def gen_arma_estimate(rng, n, nimpl):
         if kind == 'dom':
             N, P, Q, lag = pick_domain(rng, [0, 1, 1, 2, 2], 12, cplx)
         elif kind == 'dom34':
+            cplx = True                                 # P >= Q + 2: the only place where the `KPQ < 0: Y[K] = R[-KPQ].conjugate()` branch is taken on non-real lags
             N, P, Q, lag = pick_domain(rng, [3, 4], 16, cplx)
         elif kind == 'dom_oracle':
             N, P, Q, lag = pick_domain(rng, [5, 5, 6], 24, cplx)
